@@ -22,7 +22,8 @@ import (
 )
 
 // C03 harness: long generated histories against the real plugin
-//   OnQuotaAdd/OnQuotaUpdate, OnNodeAdd/OnNodeUpdate, OnPodAdd, PreFilter, Reserve, Unreserve, OnPodDelete
+//   OnQuotaAdd/OnQuotaUpdate (max/min changes, re-parenting, is-parent / allow-lent flips = tree reset),
+//   OnNodeAdd/OnNodeUpdate, OnPodAdd, PreFilter, Reserve, Unreserve, OnPodDelete
 // for the four combinations of EnableRuntimeQuota x EnableCheckParentQuota.  Ops go to the Lean model,
 // observations are the PreFilter status code and the Used/NonPreemptibleUsed of every group after every
 // state-changing event.  The oracle keeps its own books (which pods are assigned, their requests, the
@@ -261,6 +262,240 @@ type c03World struct {
 	closedLoop bool
 	// koordinator-default-quota / koordinator-system-quota: RefreshRuntime never writes their Runtime list
 	special map[int]bool
+	stream  string
+}
+
+// below: q and every planned/registered group under it.
+func (w *c03World) below(q int) map[int]bool {
+	out := map[int]bool{q: true}
+	for changed := true; changed; {
+		changed = false
+		for id, x := range w.quotas {
+			if !out[id] && x.parent != 0 && out[x.parent] {
+				out[id] = true
+				changed = true
+			}
+		}
+	}
+	return out
+}
+
+// plannedChild: some planned (registered or late) group names q as its parent.
+func (w *c03World) plannedChild(q int) bool {
+	for _, x := range w.quotas {
+		if x.parent == q {
+			return true
+		}
+	}
+	return false
+}
+
+func (w *c03World) sortedIDs(pred func(*c03Quota) bool) []int {
+	var ids []int
+	for _, id := range w.order {
+		if pred(w.quotas[id]) {
+			ids = append(ids, id)
+		}
+	}
+	sort.Ints(ids)
+	return ids
+}
+
+// c03LeqMax: a <= max on the dimensions max declares.
+func c03LeqMax(a [c03D]int64, max c03RL) bool {
+	for d := 0; d < c03D; d++ {
+		if max.has[d] && a[d] > max.v[d] {
+			return false
+		}
+	}
+	return true
+}
+
+// afterReset: a tree reset cleared every Runtime list (clearForResetNoLock); the next attempt re-reads them.
+func (w *c03World) afterReset() {
+	for _, q := range w.quotas {
+		q.lastRT = nil
+	}
+}
+
+// metaEvent: one quota update that changes meta: allow-lent flip or is-parent flip (=> resetQuotaNoLock) or a
+// parent-label change (=> updateQuotaNoLockWhenParentChange).  Only shapes the webhook admits: is-parent goes to
+// false only without child groups and to true only without assigned pods; a new parent is an is-parent group outside
+// the moved subtree that declares every dimension the moved group declares.  In the closed-loop streams a move
+// must also fit (the moved usage stays within every new ancestor's max when parent checking is on; an old parent
+// left without child groups shows own usage within max/min) - moving a subtree is not an admission.
+func (w *c03World) metaEvent(r *vRand, pending *int) {
+	if len(w.order) == 0 {
+		return
+	}
+	npPending, anyAssigned := false, false
+	for _, p := range w.pods {
+		if p.inCache && !p.assigned && p.np {
+			npPending = true
+		}
+		if p.assigned {
+			anyAssigned = true
+		}
+	}
+	resetTags := func(kind string) {
+		w.h.Tag("meta:" + kind)
+		if npPending {
+			w.h.Tag("reset:with-pending-non-preemptible-pod")
+		}
+		if anyAssigned {
+			w.h.Tag("reset:with-assigned-pods")
+		}
+		if *pending != 0 {
+			w.h.Tag("interleave:reset-inside-cycle")
+		}
+	}
+	switch k := r.Intn(10); {
+	case k < 3:
+		q := w.quotas[w.order[r.Intn(len(w.order))]]
+		q.lent = !q.lent
+		resetTags("lent-flip")
+		w.setQuota(q)
+		w.afterReset()
+	case k < 5:
+		ids := w.sortedIDs(func(q *c03Quota) bool {
+			if q.isParent {
+				return !w.plannedChild(q.id)
+			}
+			for _, p := range w.pods {
+				if p.quota == q.id && p.assigned {
+					return false
+				}
+			}
+			return true
+		})
+		if len(ids) == 0 {
+			return
+		}
+		q := w.quotas[ids[r.Intn(len(ids))]]
+		q.isParent = !q.isParent
+		resetTags(fmt.Sprintf("is-parent-flip:%v", q.isParent))
+		w.setQuota(q)
+		w.afterReset()
+	default:
+		// re-parent; prefer intermediate (is-parent) groups
+		ids := w.sortedIDs(func(q *c03Quota) bool { return true })
+		if inner := w.sortedIDs(func(q *c03Quota) bool { return w.hasChild(q.id) }); len(inner) > 0 && r.Chance(2, 3) {
+			ids = inner
+		}
+		x := w.quotas[ids[r.Intn(len(ids))]]
+		sub := w.below(x.id)
+		height := 0
+		for id := range sub {
+			if n := len(w.chainPlan(id)) - len(w.chainPlan(x.id)); n > height {
+				height = n
+			}
+		}
+		xUsed, xNp := w.usedO(x.id, false), w.usedO(x.id, true)
+		oldAnc := map[int]bool{}
+		for _, a := range w.chain(x.parent) {
+			oldAnc[a] = true
+		}
+		fits := func(p int) bool {
+			if w.cfgCP {
+				for _, g := range w.chain(p) {
+					if oldAnc[g] {
+						continue
+					}
+					u := w.usedO(g, false)
+					for d := 0; d < c03D; d++ {
+						u[d] += xUsed[d]
+					}
+					if !c03LeqMax(u, w.quotas[g].max) {
+						return false
+					}
+				}
+			}
+			if o := x.parent; o != 0 {
+				other := false
+				for id, y := range w.quotas {
+					if y.parent == o && id != x.id && y.added {
+						other = true
+					}
+				}
+				if !other { // the old parent is left without child groups
+					u, n := w.usedO(o, false), w.usedO(o, true)
+					for d := 0; d < c03D; d++ {
+						u[d] -= xUsed[d]
+						n[d] -= xNp[d]
+					}
+					if !c03LeqMax(u, w.quotas[o].max) || !c03LeqMax(n, w.quotas[o].min) {
+						return false
+					}
+				}
+			}
+			return true
+		}
+		var targets []int
+		for _, p := range append([]int{0}, w.sortedIDs(func(q *c03Quota) bool { return q.isParent })...) {
+			if p == x.parent || sub[p] {
+				continue
+			}
+			if p != 0 {
+				ok := len(w.chain(p))+height+1 <= 5
+				for d := 0; d < c03D; d++ {
+					if x.max.has[d] && !w.quotas[p].max.has[d] {
+						ok = false
+					}
+				}
+				if !ok {
+					continue
+				}
+			}
+			if w.closedLoop && !fits(p) {
+				w.h.Tag("meta:reparent-skipped-does-not-fit")
+				continue
+			}
+			targets = append(targets, p)
+		}
+		if len(targets) == 0 {
+			return
+		}
+		np := targets[r.Intn(len(targets))]
+		kind := "leaf"
+		if w.hasChild(x.id) {
+			kind = "intermediate"
+		}
+		w.h.Tag("meta:reparent:" + kind)
+		var zero [c03D]int64
+		if xUsed != zero {
+			w.h.Tag("meta:reparent:" + kind + ":with-usage")
+			own := zero
+			for _, p := range w.pods {
+				if p.assigned && p.quota == x.id {
+					m := w.reqM(p)
+					for d := 0; d < c03D; d++ {
+						own[d] += m[d]
+					}
+				}
+			}
+			if own != xUsed && xNp == zero {
+				w.h.Tag("meta:reparent:children-usage-preemptible-only")
+			}
+		}
+		if *pending != 0 {
+			for _, a := range w.chain(w.pods[*pending].quota) {
+				if a == x.id {
+					// the admitted pod's ancestors change between PreFilter and Reserve: the new ancestors were never
+					// checked (Lean: interleaved_reparent_counterexample); outside the closed-loop histories
+					w.h.Tag("interleave:reparent-on-admitted-path")
+					if w.closedLoop {
+						*pending = 0
+					}
+				}
+			}
+		}
+		x.parent = np
+		if r.Chance(1, 5) {
+			x.lent = !x.lent // a parent change wins over every other meta change
+		}
+		w.setQuota(x)
+		x.lastRT = nil
+	}
 }
 
 func (w *c03World) chain(q int) []int { // q, parent, ... (root excluded)
@@ -321,7 +556,8 @@ func (w *c03World) dump() {
 	sums := w.gp.groupQuotaManager.GetQuotaSummaries(false)
 	root := w.gp.groupQuotaManager.GetQuotaInfoByName(extension.RootQuotaName)
 	ru, rn := c03FromList(root.GetUsed()), c03FromList(root.GetNonPreemptibleUsed())
-	w.h.Obs("q 0 %s %s", vInts(ru.v[:]), vInts(rn.v[:]))
+	rsu, rsn := c03FromList(root.GetSelfUsed()), c03FromList(root.GetSelfNonPreemptibleUsed())
+	w.h.Obs("q 0 %s %s %s %s", vInts(ru.v[:]), vInts(rn.v[:]), vInts(rsu.v[:]), vInts(rsn.v[:]))
 	for _, id := range w.order {
 		s := sums[c03QName(id)]
 		if s == nil {
@@ -329,7 +565,17 @@ func (w *c03World) dump() {
 			continue
 		}
 		u, n := c03FromList(s.Used), c03FromList(s.NonPreemptibleUsed)
-		w.h.Obs("q %d %s %s", id, vInts(u.v[:]), vInts(n.v[:]))
+		su, sn := c03FromList(s.SelfUsed), c03FromList(s.SelfNonPreemptibleUsed)
+		w.h.Obs("q %d %s %s %s %s", id, vInts(u.v[:]), vInts(n.v[:]), vInts(su.v[:]), vInts(sn.v[:]))
+		// what admission relies on: the reported used of a group is the sum of the (masked) requests of the pods
+		// currently assigned in its subtree - whatever happened before (every stream: roll-backs, deletions,
+		// re-parenting, tree resets, lowered max, unadmitted reserves)
+		if uo := w.usedO(id, false); u.v != uo {
+			w.h.Fail("C03:used-ne-assigned", "group %d reports used %v, the pods assigned in its subtree request %v", id, u.v, uo)
+		}
+		if no := w.usedO(id, true); n.v != no {
+			w.h.Fail("C03:used-ne-assigned:np", "group %d reports nonPreemptibleUsed %v, the non-preemptible pods assigned in its subtree request %v", id, n.v, no)
+		}
 		if !w.closedLoop || (w.special[id] && w.cfgRT) {
 			// (default/system quota in runtime mode: used above max is the consequence of the known finding
 			// C03:default-quota-unlimited-in-runtime-mode, reported once, at the admission)
@@ -358,7 +604,7 @@ func (w *c03World) dump() {
 func (w *c03World) setQuota(q *c03Quota) {
 	w.rv++
 	obj := c03MakeQuota(q, w.rv)
-	w.h.Op("quota %d %d %s %s", q.id, q.parent, q.max.toks(), q.min.toks())
+	w.h.Op("quota %d %d %d %d %s %s", q.id, q.parent, vB(q.isParent), vB(q.lent), q.max.toks(), q.min.toks())
 	if w.h.Guard(func() {
 		if !q.added {
 			w.gp.OnQuotaAdd(obj)
@@ -529,8 +775,10 @@ func TestVerifC03(t *testing.T) {
 	h.Close("one history per case: 2-7 groups in a 1-4 level tree (sibling maxima may oversubscribe the parent; min<=max), one node whose " +
 		"capacity changes, <=14 pods (requests with missing/zero/positive dims, 1-2 containers, 1/3 non-preemptible), 60/90 events: " +
 		"PreFilter, Reserve (only the pod just admitted, possibly after unrelated events), Unreserve, OnPodDelete, OnPodAdd, max/min raise, late group add, " +
-		"capacity change; switches (runtime, check-parent) = case index mod 4; streams: main, mask (a group's max lacks a dimension), " +
-		"wild (max/min lowered and unadmitted reserves: decision clauses only); non-trivial = at least one admitted and one rejected attempt; distinct by op lines")
+		"capacity change, meta updates (allow-lent flip / is-parent flip = tree reset, parent-label change = re-parenting of a leaf or an intermediate group " +
+		"with its subtree; webhook-legal shapes, in the closed-loop streams only moves that fit); switches (runtime, check-parent) = case index mod 4; " +
+		"streams: main, mask (a group's max lacks a dimension), tree (root<-1<-2<-3 guaranteed, more meta updates), " +
+		"wild (max/min lowered, unadmitted reserves, moves that do not fit: decision and used=assigned clauses only); non-trivial = at least one admitted and one rejected attempt; distinct by op lines")
 }
 
 func c03Case(t *testing.T, h *vHarness, idx int, steps int) {
@@ -552,7 +800,10 @@ func c03Case(t *testing.T, h *vHarness, idx int, steps int) {
 		stream = "wild"
 	case 2:
 		stream = "mask"
+	case 3:
+		stream = "tree"
 	}
+	w.stream = stream
 	w.closedLoop = stream != "wild"
 	h.Tag("stream:" + stream)
 	h.Tag(fmt.Sprintf("switches:rt%d-cp%d", vB(w.cfgRT), vB(w.cfgCP)))
@@ -560,14 +811,22 @@ func c03Case(t *testing.T, h *vHarness, idx int, steps int) {
 
 	// --- tree plan ---
 	nq := r.Range(2, 7)
+	if stream == "tree" {
+		nq = r.Range(4, 7) // root <- 1 <- 2 <- 3 at least: three levels below the root, two intermediate groups
+	}
 	var parents []int // ids that may carry children
 	for id := 1; id <= nq; id++ {
 		q := &c03Quota{id: id, lent: !r.Chance(1, 4)}
-		if len(parents) > 0 && !r.Chance(1, 4) {
+		if stream == "tree" && id <= 3 {
+			q.parent = id - 1
+		} else if len(parents) > 0 && !r.Chance(1, 4) {
 			q.parent = parents[len(parents)-1-r.Intn((len(parents)+1)/2)] // prefer recent parents: deeper chains
 		}
 		depth := len(w.chainPlan(q.parent)) + 1
-		if depth < 4 && id < nq && r.Chance(2, 3) {
+		if stream == "tree" && id <= 2 {
+			q.isParent = true
+			parents = append(parents, id)
+		} else if depth < 4 && id < nq && r.Chance(2, 3) {
 			q.isParent = true
 			parents = append(parents, id)
 		}
@@ -772,7 +1031,7 @@ func c03Case(t *testing.T, h *vHarness, idx int, steps int) {
 					break
 				}
 			}
-		case k < 92:
+		case k < 92 && !(stream == "tree" && k >= 87):
 			// capacity change
 			old := node
 			for d := 0; d < c03D; d++ {
@@ -791,7 +1050,7 @@ func c03Case(t *testing.T, h *vHarness, idx int, steps int) {
 			gp.OnNodeUpdate(old, node)
 			w.dump()
 		default:
-			if stream == "wild" {
+			if stream == "wild" && r.Bool() {
 				// reserve without admission (outside the property's histories; decision logic is still checked)
 				if p := pick(func(p *c03Pod) bool { return p.inCache && !p.assigned }); p != nil {
 					reserve(p)
@@ -799,6 +1058,8 @@ func c03Case(t *testing.T, h *vHarness, idx int, steps int) {
 						pending = 0
 					}
 				}
+			} else {
+				w.metaEvent(r, &pending)
 			}
 		}
 	}
@@ -891,7 +1152,7 @@ func c03DefaultCase(t *testing.T, h *vHarness, idx int) {
 		w.quotas[id] = &c03Quota{id: id, max: mx, added: true, lent: true}
 		w.order = append(w.order, id)
 		// the two quotas exist from NewGroupQuotaManager on; the op only tells the model their max
-		h.Op("quota %d 0 %s %s", id, mx.toks(), c03RL{}.toks())
+		h.Op("quota %d 0 0 1 %s %s", id, mx.toks(), c03RL{}.toks())
 		w.dump()
 	}
 	nextPod, pending, admitted := 1, 0, 0
